@@ -38,6 +38,7 @@ def run(ctx):
     ctx.do(rule_id_directory_syntax)
     ctx.do(rule_newest)
     ctx.do(rule_all_versions_kept)
+    ctx.do(rule_memory_query_scans_everything)
     ctx.do(rule_save_load)
     ctx.do(rule_encoding_agreement)
     from .C17 import rule_failed_write_leaves_no_file
@@ -556,3 +557,62 @@ def rule_save_load(ctx):
               "the store's source and sink do not share one mapping", file=init.module.relpath, line=init.node.lineno,
               function=init.qualname, expected="MemorySource(stix_data=self._data, _store=True), MemorySink(stix_data=self._data, _store=True)",
               found="changed")
+
+
+def rule_memory_query_scans_everything(ctx, rule_id="C11.all-versions-kept"):
+    """The memory store answers a query by filtering EVERYTHING it holds: what MemorySource.query hands to apply_common_filters
+    is derived from `self._data.values()` on every path.  The filesystem store prunes by type and id with an optimiser that has
+    its own decision table (C12.optimiser-table); a second, private shortcut in the memory store (looking only at the ids an
+    `id` filter names) has none -- and differs from the filter semantics where `in` has a string value (a substring test)."""
+    run = ctx.run
+    prog = ctx.prog
+    fi = prog.cls(MEM + "::MemorySource").methods.get("query")
+    if fi is None:
+        raise AnalysisError("anchor missing: MemorySource.query")
+    rel = fi.module.relpath
+    calls = [c for c in body_walk(fi.node) if isinstance(c, ast.Call) and call_simple_name(c) == "apply_common_filters" and c.args]
+    if not calls:
+        raise AnalysisError("MemorySource.query: apply_common_filters call not found")
+    WHOLE = "self._data.values()"
+    narrowed = []
+    seen = set()
+
+    def chase(e):
+        # every comprehension source and every name on the way must come from the whole store
+        for g_ in [x for x in ast.walk(e) if isinstance(x, ast.comprehension)]:
+            it = g_.iter
+            if norm(it) == WHOLE:
+                continue
+            if isinstance(it, ast.Name):
+                chase_name(it.id)
+            elif "self._data" in norm(it):
+                narrowed.append(it)
+        if isinstance(e, ast.Name):
+            chase_name(e.id)
+
+    def chase_name(nm):
+        if nm in seen:
+            return
+        seen.add(nm)
+        for a_ in body_walk(fi.node):
+            if isinstance(a_, ast.Assign) and any(isinstance(t, ast.Name) and t.id == nm for t in a_.targets):
+                if norm(a_.value) == WHOLE:
+                    continue
+                if any(isinstance(x, ast.comprehension) for x in ast.walk(a_.value)) or isinstance(a_.value, ast.Name):
+                    if "self._data[" in norm(a_.value) or ".get(" in norm(a_.value):
+                        narrowed.append(a_.value)
+                    chase(a_.value)
+                    for x in ast.walk(a_.value):
+                        if isinstance(x, ast.Name) and x.id != nm and any(
+                                isinstance(b_, ast.Assign) and any(isinstance(t, ast.Name) and t.id == x.id for t in b_.targets) for b_ in body_walk(fi.node)):
+                            chase_name(x.id)
+                elif "self._data" in norm(a_.value):
+                    narrowed.append(a_.value)
+    chase(calls[0].args[0])
+    whole_somewhere = any(norm(x) == WHOLE for x in body_walk(fi.node) if isinstance(x, ast.Call))
+    run.check(whole_somewhere and not narrowed, rule_id, key(rel, fi.qualname, "filters-everything-held"),
+              "the memory store does not filter everything it holds: a shortcut selects entries by key before the filters run -- "
+              "where the shortcut and the filter semantics differ (`id in '<text containing ids>'` is a substring test) objects "
+              "that satisfy every filter are missing, and the memory store disagrees with the filesystem store", file=rel,
+              line=narrowed[0].lineno if narrowed else fi.node.lineno, function=fi.qualname,
+              expected="apply_common_filters(<everything derived from self._data.values()>, query)", found=[short(x) for x in narrowed][:3])
